@@ -12,6 +12,7 @@ import (
 	"os"
 	"path/filepath"
 	"runtime/pprof"
+	"sort"
 	"strings"
 
 	"github.com/aergoio/aergo-lib/db"
@@ -188,15 +189,7 @@ func (r *refState) agrees(v *view) (logOK, hsOK, snapOK, identOK bool) {
 	} else {
 		hsOK = v.hsErr == nil && v.hs.Term == r.hs.Term && v.hs.Vote == r.hs.Vote && v.hs.Commit == r.hs.Commit
 	}
-	if (v.snap == nil) != (r.snap == nil) {
-		snapOK = false
-	} else if v.snap == nil {
-		snapOK = true
-	} else {
-		a, _ := v.snap.Marshal()
-		b, _ := r.snap.Marshal()
-		snapOK = bytes.Equal(a, b)
-	}
+	snapOK = sameSnap(v.snap, r.snap)
 	identOK = (v.ident == nil) == (r.ident == nil) && (v.ident == nil || *v.ident == *r.ident)
 	return
 }
@@ -263,7 +256,7 @@ func (s *session) crashPoints(kind string, pre map[string][]byte, ev []jevent, l
 		// state the operation was asked to produce, never a mixture inside the log
 		l0, h0, s0, i0 := ref0.agrees(v)
 		l1, h1, s1, i1 := ref1.agrees(v)
-		where := fmt.Sprintf("crash after %d of the %d write units of [%s]: ", k, n, line)
+		where := fmt.Sprintf("crash after %d of the %d write units of [%s]: ", k, n, clip(line, 160))
 		if !l0 && !l1 {
 			s.fail(where + "the log read back after the restart (last index, entries) is neither the log before the operation nor the log after it")
 		}
@@ -280,7 +273,16 @@ func (s *session) crashPoints(kind string, pre map[string][]byte, ev []jevent, l
 			s.fail(where + "the hard state of the call is durable before its entries")
 		}
 		if k == n && !(l1 && h1 && s1 && i1) {
-			s.fail(where + "the journal of write units does not reproduce the store")
+			var which []string
+			for _, x := range []struct {
+				ok bool
+				n  string
+			}{{l1, "log"}, {h1, "hard state"}, {s1, "snapshot"}, {i1, "identity"}} {
+				if !x.ok {
+					which = append(which, x.n)
+				}
+			}
+			s.fail(where + "after all its write units a restarted node does not read back what the operation was asked to store (" + strings.Join(which, ", ") + ")")
 		}
 		s.run.Count("cut:oracle")
 	}
@@ -501,17 +503,54 @@ func (s *session) oracle() {
 	sn, _ := s.cdb.GetSnapshot()
 	if (sn == nil) != (s.snap == nil) {
 		s.fail("snapshot presence differs from what was written")
-	} else if sn != nil {
-		a, _ := sn.Marshal()
-		b, _ := s.snap.Marshal()
-		if !bytes.Equal(a, b) {
-			s.fail("snapshot read back differs from the one written")
-		}
+	} else if !sameSnap(sn, s.snap) {
+		s.fail("snapshot read back differs from the one written")
 	}
 	id, _ := s.cdb.GetIdentity()
 	if (id == nil) != (s.ident == nil) || (id != nil && *id != *s.ident) {
 		s.fail(fmt.Sprintf("identity read back %s, written %s", showIdent(id), showIdent(s.ident)))
 	}
+}
+
+// sameSnap: the snapshot read back is the one written, as far as the property is concerned: index, term,
+// configuration (node and learner ids as sets) and the data bytes (a re-encoding of the envelope is harmless).
+func sameSnap(a, b *raftpb.Snapshot) bool {
+	if a == nil || b == nil {
+		return a == b
+	}
+	set := func(l []uint64) string {
+		c := append([]uint64{}, l...)
+		sort.Slice(c, func(i, j int) bool { return c[i] < c[j] })
+		return fmt.Sprint(c)
+	}
+	return a.Metadata.Index == b.Metadata.Index && a.Metadata.Term == b.Metadata.Term && bytes.Equal(a.Data, b.Data) &&
+		set(a.Metadata.ConfState.Nodes) == set(b.Metadata.ConfState.Nodes) && set(a.Metadata.ConfState.Learners) == set(b.Metadata.ConfState.Learners)
+}
+
+// sameEntry: the raftpb entry handed back is the one acknowledged: type, term, index and the same payload —
+// the same bytes, or bytes that decode to the same block / the same conf change (an equivalent re-encoding is harmless).
+func sameEntry(e raftpb.Entry, wtype raftpb.EntryType, wterm, windex uint64, wdata []byte) bool {
+	if e.Type != wtype || e.Term != wterm || e.Index != windex {
+		return false
+	}
+	if bytes.Equal(e.Data, wdata) {
+		return true
+	}
+	if len(e.Data) == 0 || len(wdata) == 0 {
+		return false
+	}
+	if wtype == raftpb.EntryConfChange {
+		var a, b raftpb.ConfChange
+		return a.Unmarshal(e.Data) == nil && b.Unmarshal(wdata) == nil && a.ID == b.ID && a.Type == b.Type && a.NodeID == b.NodeID && bytes.Equal(a.Context, b.Context)
+	}
+	ba, err1 := raftv2.VerifUnmarshalBlock(e.Data)
+	bb, err2 := raftv2.VerifUnmarshalBlock(wdata)
+	if err1 != nil || err2 != nil {
+		return false
+	}
+	x, _ := proto.Encode(ba)
+	y, _ := proto.Encode(bb)
+	return bytes.Equal(ba.BlockHash(), bb.BlockHash()) && bytes.Equal(x, y)
 }
 
 func showReadErr(err error) string {
@@ -632,7 +671,7 @@ func (s *session) readall() {
 		if r.raw != nil {
 			wdata, wtype = r.raw.Data, r.raw.Type
 		}
-		if e.Type != wtype || e.Term != r.term || e.Index != r.index || !bytes.Equal(e.Data, wdata) {
+		if !sameEntry(e, wtype, r.term, r.index, wdata) {
 			s.fail(fmt.Sprintf("ReadAll(%s): entry %d handed back to raft differs from the one acknowledged", arg, r.index))
 		}
 	}
@@ -789,7 +828,7 @@ func (s *session) checkHanded(where string, h *handed, r *refState, want []*refE
 		if x.raw != nil {
 			wdata, wtype = x.raw.Data, x.raw.Type
 		}
-		if e.Type != wtype || e.Term != x.term || e.Index != x.index || !bytes.Equal(e.Data, wdata) {
+		if !sameEntry(e, wtype, x.term, x.index, wdata) {
 			s.fail(fmt.Sprintf("%s: entry %d handed to the consensus library differs from the one acknowledged", where, x.index))
 		}
 	}
@@ -804,7 +843,7 @@ func (s *session) checkHanded(where string, h *handed, r *refState, want []*refE
 	if r.hs == nil || h.hs.Term != r.hs.Term || h.hs.Vote != r.hs.Vote || h.hs.Commit != wantCommit {
 		s.fail(fmt.Sprintf("%s: hard state handed over %s, acknowledged %s", where, showHS(&h.hs), showHS(r.hs)))
 	}
-	if (h.snap == nil) != (r.snap == nil) || (h.snap != nil && (h.snap.Metadata.Index != r.snap.Metadata.Index || h.snap.Metadata.Term != r.snap.Metadata.Term || !bytes.Equal(h.snap.Data, r.snap.Data))) {
+	if !sameSnap(h.snap, r.snap) {
 		s.fail(where + ": snapshot handed over differs from the one written last")
 	}
 	if h.ident != *r.ident {
@@ -1161,6 +1200,43 @@ func (s *session) write(wellFormed bool) {
 	s.journaled(k, func() { s.write0(wellFormed) })
 }
 
+// writeBatch: a direct, well-formed ChainDB.WriteRaftEntry of the given batch.
+func (s *session) writeBatch(b []*genEntry, kind string) {
+	s.journaled("write", func() {
+		var toks []string
+		var ents []*consensus.WalEntry
+		var blocks []*types.Block
+		var ccs []*raftpb.ConfChange
+		for _, g := range b {
+			ents = append(ents, &consensus.WalEntry{Type: consensus.EntryType(g.typ), Term: g.term, Index: g.index, Data: g.data})
+			var blkp *types.Block
+			var cc *raftpb.ConfChange
+			switch g.typ {
+			case 0:
+				blkp = g.blk.b
+				toks = append(toks, fmt.Sprintf("b,%d,%d,%s,%s", g.term, g.index, hx(g.data), g.blk.tok()))
+			case 1:
+				toks = append(toks, fmt.Sprintf("e,%d,%d,%s", g.term, g.index, hx(g.data)))
+			default:
+				cc = &raftpb.ConfChange{ID: g.ccid}
+				toks = append(toks, fmt.Sprintf("c,%d,%d,%s,%d", g.term, g.index, hx(g.data), g.ccid))
+			}
+			blocks, ccs = append(blocks, blkp), append(ccs, cc)
+			if g.index > s.maxIdx {
+				s.maxIdx = g.index
+			}
+		}
+		out := res(func() error { return s.cdb.WriteRaftEntry(ents, blocks, ccs) })
+		s.op("write "+strings.Join(toks, " "), out, out == "ok")
+		s.run.Count("batch:" + kind + "(direct)")
+		if out == "ok" {
+			s.applyRef(b, false)
+		} else {
+			s.fail("WriteRaftEntry of a well-formed batch ended with " + out)
+		}
+	})
+}
+
 func (s *session) write0(wellFormed bool) {
 	var b []*genEntry
 	kind := ""
@@ -1355,9 +1431,9 @@ func (s *session) stepOnce(malformed bool) {
 
 func walSessions(run *vh.Run) {
 	s := &session{run: run, rng: run.Rng, dir: filepath.Join(run.Out, "waldb")}
-	nsess := run.Pick(1500, 16000)
+	nsess := run.Pick(500, 5000)
 	for i := 0; i < nsess; i++ {
-		s.cuts = s.rng.Chance(1, 2)
+		s.cuts = s.rng.Chance(1, 3)
 		s.start()
 		malformed := i%6 == 5
 		if malformed {
@@ -1377,6 +1453,39 @@ func walSessions(run *vh.Run) {
 			s.stepOnce(malformed)
 		}
 		s.store.Close()
+	}
+	// a long log: indices beyond one byte (and, thorough, beyond a thousand), truncated across those boundaries, cleared
+	{
+		n := uint64(run.Pick(300, 1100))
+		s.cuts = true
+		s.start()
+		b := s.genBatch(1, int(n))
+		s.writeBatch(b, "long-append")
+		s.restart()
+		s.dump()
+		s.term++
+		for _, first := range []uint64{n - 3, 250, 1} {
+			if first > s.last {
+				continue
+			}
+			s.writeBatch(s.genBatch(first, 5), "long-truncate")
+			s.restart()
+			s.dump()
+			s.readall()
+			s.term++
+			if s.last < n {
+				s.writeBatch(s.genBatch(s.last+1, int(n-s.last)), "long-refill")
+			}
+		}
+		s.journaled("", func() {
+			out := res(func() error { s.cdb.ClearWAL(); return nil })
+			s.op("clear", out, true)
+			s.log, s.last, s.hs, s.snap, s.ident = map[uint64]*refEntry{}, 0, nil, nil, nil
+		})
+		s.restart()
+		s.dump()
+		s.store.Close()
+		run.Count("session:long-log")
 	}
 	// the minimal scenario of lead 10, always present
 	s.start()
@@ -1819,7 +1928,7 @@ func (c *memCase) recoverFrom(sa, sr []*mem, blk *types.Block) {
 		}
 	}
 	if len(a1) != len(uniqIDs(sa)) || len(r1) != len(uniqIDs(sr)) {
-		c.run.Fail("after catching up from a snapshot the cluster has members the snapshot does not list", map[string]interface{}{"op": line, "answer": out})
+		c.run.Fail("after catching up from a snapshot the member / removed-member sets of the cluster are not the snapshot's", map[string]interface{}{"op": line, "answer": out})
 	}
 }
 
@@ -2053,7 +2162,7 @@ func membership(run *vh.Run) {
 	}
 
 	// (c) random clusters: colliding attributes inside the request, larger clusters, random progress
-	for i := 0; i < run.Pick(4000, 60000); i++ {
+	for i := 0; i < run.Pick(3000, 40000); i++ {
 		n := rng.Intn(8)
 		perm := rng.Intn(9)
 		var ap, rm []*mem
